@@ -56,6 +56,16 @@ func Pool() []Block {
 		{Name: "T_leaf", Kind: "type", Defines: []string{"@leaf"}, Needs: []string{"@mid"}, Nodes: one(func() *Node {
 			return N("TYPE", "@leaf").WithBody("{ // {allOf: \"@mid\"}\n  \"lf\": 1\n}")
 		})},
+		// a property whose key is a type reference ("key shortcut"), inherited through a chain of two
+		{Name: "T_ks", Kind: "type", Defines: []string{"@ks"}, Needs: []string{"@c"}, Nodes: one(func() *Node {
+			return N("TYPE", "@ks").WithBody("{\n  \"pc\": 3,\n  @c: 4\n}")
+		})},
+		{Name: "T_ksm", Kind: "type", Defines: []string{"@ksm"}, Needs: []string{"@ks"}, Nodes: one(func() *Node {
+			return N("TYPE", "@ksm").WithBody("{ // {allOf: \"@ks\"}\n  \"pm\": 2\n}")
+		})},
+		{Name: "T_kst", Kind: "type", Defines: []string{"@kst"}, Needs: []string{"@ksm"}, Nodes: one(func() *Node {
+			return N("TYPE", "@kst").WithBody("{ // {allOf: \"@ksm\"}\n  \"pt\": 1\n}")
+		})},
 		{Name: "T_nest", Kind: "type", Defines: []string{"@nest"}, Needs: []string{"@a"}, Nodes: one(func() *Node {
 			return N("TYPE", "@nest").WithBody("{\n  \"in\": { // {allOf: \"@a\"}\n    \"x\": 1\n  }\n}")
 		})},
